@@ -1,4 +1,7 @@
 import AthlibVerif.Model.Codes
+import AthlibVerif.Oblig.C07.Tie
+import AthlibVerif.Oblig.C10.Groups
+import AthlibVerif.Lemmas.Sym
 /-!
 # C10 — Every valid event code can be sorted, measured and classified without error
 
@@ -182,6 +185,92 @@ theorem C10_field_order :
     (keyIs "HJ" (3, 0) && keyIs "PV" (3, 2) && keyIs "LJ" (3, 3) && keyIs "TJ" (3, 5) &&
      keyIs "SP" (4, 7) && keyIs "DT" (4, 8) && keyIs "HT" (4, 9) && keyIs "JT" (4, 10)) = true := by
   decide +kernel
+
+/-! ## the family tests are membership in the languages of C04; totality of the `int()` calls
+
+`Lemmas/MatchSound.lean`: the backtracking matcher accepts exactly the language of its pattern and every
+captured span is matched by the body of its group.  `Oblig/C07/Tie.lean`, `Oblig/C10/Groups.lean`: decided on
+the regenerated patterns. -/
+
+theorem pyMatch_eq_language {name : String} {p : RE} (h : (name, p) ∈ Gen.patternTable) (d : Str) :
+    (pyMatch name d).isSome = p.matchesChars d := by
+  have h1 := pyMatch_iff name p (Oblig.C07.tied h) d
+  have h2 := matchesChars_iff p d
+  cases ha : (pyMatch name d).isSome <;> cases hb : p.matchesChars d <;> simp_all
+
+theorem mem_THROWS : ("PAT_THROWS", Gen.PAT_THROWS) ∈ Gen.patternTable := by decide +kernel
+theorem mem_HURDLES : ("PAT_HURDLES", Gen.PAT_HURDLES) ∈ Gen.patternTable := by decide +kernel
+theorem mem_JUMPS : ("PAT_JUMPS", Gen.PAT_JUMPS) ∈ Gen.patternTable := by decide +kernel
+theorem mem_RELAYS : ("PAT_RELAYS", Gen.PAT_RELAYS) ∈ Gen.patternTable := by decide +kernel
+theorem mem_TRACK : ("PAT_TRACK", Gen.PAT_TRACK) ∈ Gen.patternTable := by decide +kernel
+
+/-- **The category is decided by language membership**: the first of throws, hurdles, jumps, relays, track
+    (the languages of the C04 theorems) that contains the code, in that order; 6 when none does. -/
+theorem C10_category_by_language (d : Str) (k : Nat × Nat) (hd : d ≠ []) (h : sortKey d = .ok k) :
+    k.1 = (if Gen.PAT_THROWS.matchesChars d then 4
+           else if Gen.PAT_HURDLES.matchesChars d then 2
+           else if Gen.PAT_JUMPS.matchesChars d then 3
+           else if Gen.PAT_RELAYS.matchesChars d then 5
+           else if Gen.PAT_TRACK.matchesChars d then 1 else 6) := by
+  rw [C10_category_of_family d k hd h, pyMatch_eq_language mem_THROWS, pyMatch_eq_language mem_HURDLES,
+    pyMatch_eq_language mem_JUMPS, pyMatch_eq_language mem_RELAYS, pyMatch_eq_language mem_TRACK]
+
+/-- **Hurdles never fail**: for every string the hurdles pattern accepts (and the throws pattern does not), the key
+    is `(2, metres)` — the metres group always takes part and `int()` accepts whatever it can capture. -/
+theorem C10_hurdles_total (d : Str) (hd : d ≠ []) (ht : (pyMatch "PAT_THROWS" d).isSome = false)
+    (hh : (pyMatch "PAT_HURDLES" d).isSome = true) : ∃ n, sortKey d = .ok (2, n) := by
+  have hO := Oblig.C10.hurdles_metres
+  simp only [Bool.and_eq_true] at hO
+  obtain ⟨hc, hhc⟩ := Option.isSome_iff_exists.1 hh
+  obtain ⟨id, hid, t, hg⟩ := group_mandatory "PAT_HURDLES" [1] hO.2 d hc hhc
+  simp only [List.mem_cons, List.mem_nil_iff, or_false] at hid
+  subst hid
+  obtain ⟨n, hn⟩ := group_int Oblig.C10.digit_table "PAT_HURDLES" 1 hO.1 d hc hhc t hg
+  refine ⟨n, ?_⟩
+  unfold sortKey
+  have hne : d.isEmpty = false := by cases d <;> simp_all
+  simp only [hne, ht, hhc, hg, hn, Bool.false_eq_true, if_false, Except.map]
+
+/-- **`get_duration_event_time` never raises, on any string whatsoever.** -/
+theorem C10_duration_total (s : Str) : ∃ r, durationTime s = .ok r := by
+  have hO := Oblig.C10.duration_groups
+  unfold Oblig.C10.durationGroupsOK at hO
+  unfold durationTime
+  simp only
+  generalize (strip s).filter (· != ' ') = dev
+  cases hm : pyMatch "PAT_RACES_FOR_DISTANCE" dev with
+  | none => exact ⟨none, rfl⟩
+  | some caps =>
+    simp only
+    cases hH : groupId "PAT_RACES_FOR_DISTANCE" "dhours" with
+    | none => rw [hH] at hO; simp at hO
+    | some idh =>
+      cases hM : groupId "PAT_RACES_FOR_DISTANCE" "dmins" with
+      | none => rw [hH, hM] at hO; simp at hO
+      | some idm =>
+        rw [hH, hM] at hO
+        simp only [Bool.and_eq_true] at hO
+        obtain ⟨⟨dH, dM⟩, hmand⟩ := hO
+        simp only [Option.bind_some]
+        cases hgh : group dev caps idh with
+        | some t =>
+          simp only
+          by_cases hte : t.isEmpty = true
+          · exact ⟨none, by simp [hte]⟩
+          · obtain ⟨n, hn⟩ := group_int Oblig.C10.digit_table _ idh dH dev caps hm t hgh
+            exact ⟨some (n * 3600), by simp [hte, hn, Except.map]⟩
+        | none =>
+          simp only
+          cases hgm : group dev caps idm with
+          | some t =>
+            obtain ⟨n, hn⟩ := group_int Oblig.C10.digit_table _ idm dM dev caps hm t hgm
+            exact ⟨some (n * 60), by simp [hn, Except.map]⟩
+          | none =>
+            obtain ⟨id, hid, t, hg⟩ := group_mandatory _ [idh, idm] hmand dev caps hm
+            simp only [List.mem_cons, List.mem_nil_iff, or_false] at hid
+            rcases hid with rfl | rfl
+            · rw [hgh] at hg; cases hg
+            · rw [hgm] at hg; cases hg
 
 /-- Full statement of the totality clause (NOT proved here). -/
 def C10_total_statement : Prop :=
